@@ -283,8 +283,14 @@ def coefficients(ctx):
             want, tag = -smu0 * V * (cond + sval * eps0 * epsr), \
                 'with epsilon_r'
         else:
-            raise AnalysisError(f'{mm.rel}: unrecognised path in the eta '
-                                f'computation: {p.conds}')
+            ctx.fail('C02.O4.eta', 'VolumeModel: displacement term present '
+                     'iff epsilon_r is given', 'the choice between '
+                     '-s mu0 V sigma and -s mu0 V (sigma + s eps0 eps_r) is '
+                     f'made under {[c for c, _ in p.conds]}: it may depend '
+                     'only on `epsilon_r is None` (any value-dependent '
+                     'shortcut changes the operator for those values)',
+                     ctx.where(mm, loop))
+            continue
         seen.add(tag)
         if want is None:
             ok = val is None
@@ -616,6 +622,117 @@ def field_shapes(ctx):
               'electric fields do not live on edges', ctx.where(fm, gp))
 
 
+def model_aliasing(ctx):
+    """The volume-averaged model is computed FROM the model, never INTO it:
+    no in-place operation in VolumeModel.__init__ acts on a value that may
+    be one of the model's own arrays.  May-alias facts are read off the
+    code: getattr(model, ..)/model.<x> are the model's arrays; a Map.backward
+    that returns its argument (MapConductivity) passes the alias on, as do
+    plain re-binding, np.asarray(x[, dtype]) and reshape."""
+    mm = ctx.repo.mod('emg3d/models.py')
+    init = mm.method('VolumeModel', '__init__')
+    mp = ctx.repo.mod('emg3d/maps.py')
+    passes = False
+    for c in mp.classes():
+        if c.name.startswith('Map'):
+            for f in c.body:
+                if isinstance(f, ast.FunctionDef) and f.name == 'backward':
+                    par = au.params(f)[1]
+                    if any(isinstance(r, ast.Return) and isinstance(
+                            r.value, ast.Name) and r.value.id == par
+                            for r in ast.walk(f)):
+                        passes = True
+    mpar = au.params(init)[1]
+    alias = set()
+
+    def may_alias(e):
+        if isinstance(e, ast.Name):
+            return e.id in alias
+        if isinstance(e, ast.Attribute):
+            return ast.unparse(e.value) == mpar or may_alias(e.value) \
+                if e.attr in ('T', 'real') or ast.unparse(e.value) == mpar \
+                else False
+        if isinstance(e, ast.Subscript):
+            return may_alias(e.value)
+        if isinstance(e, ast.Call):
+            f = ast.unparse(e.func)
+            if f == 'getattr' and e.args and ast.unparse(e.args[0]) == mpar:
+                return True
+            if f.endswith('.map.backward') and passes:
+                return any(may_alias(a) for a in e.args)
+            if f in ('np.asarray', 'np.asanyarray', 'np.asfortranarray',
+                     'np.ascontiguousarray', 'np.real', 'np.atleast_1d'):
+                return any(may_alias(a) for a in e.args[:1])
+            if isinstance(e.func, ast.Attribute) and e.func.attr in (
+                    'reshape', 'view', 'ravel', 'squeeze', 'transpose'):
+                return may_alias(e.func.value)
+        return False
+    sts = sorted((n for n in ast.walk(init)
+                  if isinstance(n, (ast.Assign, ast.AugAssign))),
+                 key=lambda n: (n.lineno, n.col_offset))
+    changed = True
+    while changed:
+        changed = False
+        for st in sts:
+            if isinstance(st, ast.Assign) and may_alias(st.value):
+                for t in st.targets:
+                    if isinstance(t, ast.Name) and t.id not in alias:
+                        alias.add(t.id)
+                        changed = True
+    n = 0
+    for st in sts:
+        tg = st.target if isinstance(st, ast.AugAssign) else None
+        if tg is None:
+            for t in st.targets:
+                if isinstance(t, ast.Subscript) and may_alias(t.value):
+                    tg = t
+        if tg is None:
+            continue
+        n += 1
+        base = tg.value if isinstance(tg, ast.Subscript) else tg
+        bad = may_alias(base)
+        ctx.check('C02.O4.alias', f'VolumeModel.__init__ `{au.stext(st)[:50]}`',
+                  not bad, f'in-place operation on `{ast.unparse(base)}`, '
+                  'which may be an array of the input model (e.g. '
+                  'MapConductivity.backward returns its argument): the model '
+                  'is changed by building its volume-averaged copy, every '
+                  'later use sees other values', ctx.where(mm, st))
+    ctx.need(passes, 'no Map.backward returns its argument (alias source)')
+    ctx.need(n >= 1, 'no in-place statement in VolumeModel.__init__')
+
+
+def fresh_vmodel(ctx, rule='C02.O5.wrapper'):
+    """solve() works on the volume-averaged model OF ITS ARGUMENTS: the name
+    handed to residual/multigrid/krylov has exactly one definition, the
+    constructor call on the parameters of this call (a remembered instance
+    belongs to the model values and frequency of an earlier call)."""
+    sm = ctx.repo.mod('emg3d/solver.py')
+    sv = sm.func('solve')
+    ps = au.params(sv)
+    cons = [c for c in au.calls(sv) if ast.unparse(c.func).endswith(
+        'VolumeModel')]
+    ctx.anchor(len(cons) >= 1, 'VolumeModel construction in solve()')
+    users = [c for c in au.calls(sv) if ast.unparse(c.func) in (
+        'residual', 'multigrid', 'krylov') and c.args and
+        isinstance(c.args[0], ast.Name)]
+    names = {c.args[0].id for c in users}
+    ctx.anchor(len(users) >= 3 and len(names) == 1,
+               'residual/multigrid/krylov(vmodel, ...) calls in solve()')
+    vn = names.pop()
+    defs = [n for n in ast.walk(sv) if isinstance(n, (ast.Assign,
+                                                      ast.AugAssign))
+            and any(isinstance(t, ast.Name) and t.id == vn for t in (
+                n.targets if isinstance(n, ast.Assign) else [n.target]))]
+    direct = len(defs) == 1 and defs[0].value is cons[0] and \
+        [ast.unparse(a) for a in cons[0].args] == ps[:2] and \
+        not au.guards_of(defs[0], sv)
+    ctx.check(rule, 'solve: volume-averaged model built from the arguments '
+              'of this call', direct, f'`{vn}` has definitions '
+              f'{[au.stext(d)[:60] for d in defs]}: the operator may belong '
+              'to model values of an earlier call (models are updated in '
+              'place between solves)', ctx.where(sm, defs[0] if defs else sv))
+
+
 def run(ctx):
     ctx.explanation = (
         'amat_x is abstractly interpreted (loop body once per boundary case, '
@@ -631,7 +748,9 @@ def run(ctx):
         'sympy simplification for the three-term coefficient formulas']
     it, names, ref, interior = operator_rows(ctx)
     coefficients(ctx)
+    model_aliasing(ctx)
     call_sites(ctx)
+    fresh_vmodel(ctx)
     field_shapes(ctx)
     if ctx.tier == 'thorough':
         thorough_operator(ctx, names, ref, interior)
